@@ -1258,9 +1258,16 @@ def r185(ctx, repo):
     cc = env.lookup("correct_crosstalk")
     gm = env.lookup("get_compensation_matrix")
     names = ["ct21", "ct31", "ct12", "ct32", "ct13", "ct23"]
-    params = [a.arg for a in gm_node.args.args]
-    if sorted(params) != sorted(names):
-        raise AnalysisError("get_compensation_matrix: parameters changed")
+    ga = gm_node.args
+    params = [a.arg for a in ga.args]
+    n_def = len(ga.defaults)
+    optional = set(params[len(params) - n_def:]) if n_def else set()
+    if not set(names) <= set(params) or (
+            set(params) - set(names)) - optional or any(
+            d is None for d in ga.kw_defaults):
+        raise AnalysisError("get_compensation_matrix: the six spill "
+                            "coefficients are no longer its (only required) "
+                            "parameters")
     c = {n: Sym(Poly.sym(n)) for n in names}
     one = Rat(Poly.const(1))
     t = [Sym(Poly.sym(f"t{i}")) for i in (1, 2, 3)]
@@ -1294,9 +1301,18 @@ def r185(ctx, repo):
     F = Fraction
     tv = [F(3), F(5), F(11)]
     grid = []
-    for v12, v21, v13 in itertools.product((F(0), F(1, 2), F(2)), repeat=3):
-        cf = {"ct12": v12, "ct21": v21, "ct13": v13, "ct31": F(1, 3),
-              "ct23": F(0), "ct32": F(1)}
+    fam = [{"ct12": v12, "ct21": v21, "ct13": v13, "ct31": F(1, 3),
+            "ct23": F(0), "ct32": F(1)}
+           for v12, v21, v13 in itertools.product((F(0), F(1, 2), F(2)),
+                                                  repeat=3)]
+    # third channel fully decoupled / coupled in one direction only
+    fam += [{"ct12": v12, "ct21": v21, "ct13": F(0), "ct31": F(0),
+             "ct23": F(0), "ct32": F(0)}
+            for v12, v21 in itertools.product((F(0), F(1, 2), F(2)),
+                                              repeat=2)]
+    fam += [{"ct12": F(1, 2), "ct21": F(1, 4), "ct13": F(1, 3),
+             "ct31": F(0), "ct23": F(1, 5), "ct32": F(0)}]
+    for cf in fam:
         mat = [[F(1) if i == j else cf[f"ct{i}{j}"] for j in (1, 2, 3)]
                for i in (1, 2, 3)]
         d = (mat[0][0] * (mat[1][1] * mat[2][2] - mat[1][2] * mat[2][1])
@@ -1327,10 +1343,13 @@ def r185(ctx, repo):
                f"spill matrix { {k_: str(v) for k_, v in bad[0].items()} } "
                f"(non-negative, determinant {bad[1]}) is invertible, but "
                f"correct_crosstalk(channel {bad[2]}) gives "
-               + (f"{bad[3][0]} {bad[3][1]}: {str(bad[3][2])[:80]}"
-                  if bad[3][0] != "ok" else "a different value")
-               + " - only negative coefficients and an exactly singular "
-               "matrix may be refused", node=gm_node,
+               + (f"{bad[3][0]} {bad[3][1]}: {str(bad[3][2])[:80]} - only "
+                  f"negative coefficients and an exactly singular matrix "
+                  f"may be refused" if bad[3][0] != "ok" else
+                  "a value different from the unspilled signal - the "
+                  "compensation applied on this path is not the inverse of "
+                  "the full 3x3 spill matrix (a shortcut taken under an "
+                  "incomplete decoupling test?)"), node=gm_node,
                label=f"invertible spill with {lab} determinant is corrected")
     # two-channel use: defaults are zero
     c2 = {n: (c[n] if n in ("ct21", "ct12") else 0) for n in names}
@@ -1466,6 +1485,84 @@ def _moment_fold(repo, fn, stop=()):
             return fold.rat(defs[0].value) * Rat(Poly.sym("SIGN"))
         return None
     return Fold(repo, INERT, fn, leaf=leaf, multi=multi, stop=stop)
+
+
+F32 = ("np.float32", "'float32'", "np.single", "'f4'", "numpy.float32")
+
+
+def _prnc_float32(ctx, repo):
+    """the principal inertia ratio is handed out in single precision
+    (source: 'np.float32 for compatibility with opencv'): the rounding to
+    float32 is what turns 1 +- 1e-9 of isotropic shapes into exactly 1, so
+    that the ratio is never below one"""
+    fn = normalised(repo, INERT, "get_inert_ratio_prnc")
+    rets = [r for r in walk(fn) if isinstance(r, ast.Return)
+            and r.value is not None]
+    names = set()
+    for r in rets:
+        v = r.value
+        while isinstance(v, ast.Subscript):
+            v = v.value
+        if isinstance(v, ast.Call) and last_attr(v) == "astype" and v.args \
+                and txt(v.args[0]) in F32:
+            continue
+        if isinstance(v, ast.Call) and call_name(v) in F32 and v.args:
+            continue
+        if not isinstance(v, ast.Name):
+            raise AnalysisError("get_inert_ratio_prnc: returned value "
+                                f"`{txt(r.value)}` not recognised")
+        names.add(v.id)
+
+    def is_f32(e):
+        return e is not None and txt(e) in F32
+    why = {}
+    for name in sorted(names):
+        defs = [a for a in walk(fn) if isinstance(a, ast.Assign) and any(
+            isinstance(t, ast.Name) and t.id == name for t in a.targets)]
+        ok = False
+        # follow `x = x[0]`-style re-bindings back to the array
+        allocs = []
+        for a in defs:
+            v = a.value
+            base = v
+            while isinstance(base, ast.Subscript):
+                base = base.value
+            if isinstance(base, ast.Name) and base.id in (names | {name}):
+                continue
+            allocs.append(v)
+        if not allocs:
+            raise AnalysisError(f"get_inert_ratio_prnc: allocation of "
+                                f"`{name}` not found")
+        for v in allocs:
+            for c in ast.walk(v):
+                if isinstance(c, ast.Call):
+                    if is_f32(kwarg(c, "dtype")) or any(
+                            is_f32(x) for x in c.args[1:]) or (
+                            last_attr(c) == "astype" and c.args
+                            and is_f32(c.args[0])) or call_name(c) in F32:
+                        ok = True
+        if not ok:
+            stores = [a for a in walk(fn) if isinstance(a, ast.Assign)
+                      and any(isinstance(t, ast.Subscript) and isinstance(
+                          t.value, ast.Name) and t.value.id == name
+                          for t in a.targets)]
+            ok = bool(stores) and all(
+                isinstance(a.value, ast.Call) and (
+                    call_name(a.value) in F32 or call_name(a.value) in (
+                        "max", "np.maximum", "np.fmax")) for a in stores)
+        if not ok:
+            why[name] = short(allocs[0], 50)
+    ctx.ob("R18.7", not why,
+           "the principal inertia ratio is stored in single precision "
+           "(values of isotropic shapes round to exactly 1)" if not why else
+           f"the result `{sorted(why)[0]}` is allocated as "
+           f"`{why[sorted(why)[0]]}` and the stored ratio is neither "
+           f"rounded to float32 nor clamped: sqrt(mu20/mu02) of isotropic "
+           f"shapes comes out as 1 - 1e-9 and the ratio is no longer at "
+           f"least one (the returned values also differ bitwise from the "
+           f"documented float32 result)",
+           node=fn, key=f"{INERT}::get_inert_ratio_prnc::single precision "
+           f"result (ratio >= 1)")
 
 
 def r187(ctx, repo):
@@ -1618,6 +1715,7 @@ def r187(ctx, repo):
            "m00" if ok else "second central moments differ from their "
            "definition", node=mu["mu20"],
            key=f"{INERT}::cont_moments_cv::central moment definition")
+    _prnc_float32(ctx, repo)
     # ratios
     for q in ("get_inert_ratio_raw", "get_inert_ratio_prnc"):
         f = repo.func(INERT, q)
@@ -2566,4 +2664,50 @@ MUTANTS = list(MUTANTS) + [
          "            cont = cont.astype(dtype_64bit)\n            break\n",
          "            cont = cont.astype(dtype_64bit)\n        break\n")),
       ("import scipy.spatial as ssp\n", _CAST_TABLE)], "R18.3"),
+]
+
+# round-4 seeded changes /verif/seeded/C18_10, C18_12
+_GM_SIG = "def get_compensation_matrix(ct21, ct31, ct12, ct32, ct13, ct23):"
+_GM_FAST = ("    if two_channel:\n"
+            "        det = ct11 * ct22 - ct12 * ct21\n"
+            "        return np.array([[ct22, -ct12, 0],\n"
+            "                         [-ct21, ct11, 0],\n"
+            "                         [0, 0, det]]) / det\n\n"
+            "    crosstalk = np.array([[ct11, ct12, ct13],")
+_GM_CALL = ("                                   ct32=ct32, ct13=ct13, "
+            "ct23=ct23)")
+_PRNC_ALLOC = ("    inert_ratio_prnc = np.zeros(length, dtype=np.float32) "
+               "* np.nan\n")
+
+MUTANTS = list(MUTANTS) + [
+    ("crosstalk: 2x2 shortcut under an incomplete decoupling test (seeded)",
+     CT,
+     [(_GM_SIG, _GM_SIG.replace("ct23):", "ct23,\n"
+       "                            two_channel=False):")),
+      ("    crosstalk = np.array([[ct11, ct12, ct13],", _GM_FAST),
+      (_GM_CALL, _GM_CALL[:-1] + ",\n"
+       "                                   two_channel=(ct13 == 0 and "
+       "ct23 == 0))")], "R18.5"),
+    ("principal inertia ratio stored in double precision (seeded)", INERT,
+     (_PRNC_ALLOC, "    inert_ratio_prnc = np.full(length, np.nan)\n"),
+     "R18.7"),
+    ("principal inertia ratio allocated as float64", INERT,
+     (_PRNC_ALLOC,
+      "    inert_ratio_prnc = np.zeros(length, dtype=np.float64) * np.nan\n"
+      ), "R18.7"),
+]
+
+TWINS = list(TWINS) + [
+    ("crosstalk: 2x2 shortcut under the complete decoupling test", CT,
+     [(_GM_SIG, _GM_SIG.replace("ct23):", "ct23,\n"
+       "                            two_channel=False):")),
+      ("    crosstalk = np.array([[ct11, ct12, ct13],", _GM_FAST),
+      (_GM_CALL, _GM_CALL[:-1] + ",\n"
+       "                                   two_channel=(ct13 == 0 and "
+       "ct23 == 0\n"
+       "                                                and ct31 == 0 and "
+       "ct32 == 0))")]),
+    ("principal inertia ratio: float32 array via np.full", INERT,
+     (_PRNC_ALLOC,
+      "    inert_ratio_prnc = np.full(length, np.nan, dtype=np.float32)\n")),
 ]
